@@ -302,7 +302,7 @@ def run_chunk(idx, scens, timeout):
             b = [t for t in l.split() if t.startswith('bloom=')][0][6:]
             if b not in ('off', '0') and b.count(',') == 2:
                 return l + f' @bits={bloom_bits(b)}'
-        if o.endswith(' switched'):
+        if o.split(' polls=')[0].endswith(' switched'):      # (`cancel k w …` that completed reports `ok switched polls=n`)
             return l + ' @switched'
         if l.startswith(('bloom new', 'bloom2 new')) and o.startswith('ok bits='):
             return l + ' @bits=' + o[8:]
@@ -477,7 +477,9 @@ def judge(res, pdef):
             if pv:
                 findings.append(Finding('violation', res, i, pv))
                 break
-        if orc_applies and orc.startswith('MISMATCH') and not (nomodel and pdef.get('no_oracle_after_nomodel')):
+        race2 = any(l.startswith('race2') for l in res['script'])      # two stalled writers: the Spec oracle follows them
+        if (orc_applies or (race2 and c in ('r', 'ram', 'states', 'race2'))) and orc.startswith('MISMATCH') \
+                and not (nomodel and pdef.get('no_oracle_after_nomodel') and not race2):
             verdict = orc
             if nomodel and pdef.get('tolerate_err_after_damage') and impl.startswith(('err ', 'list')) and 'err ' in impl:
                 verdict = None     # after injected damage a read may fail; it must not return wrong data
@@ -738,11 +740,17 @@ def main():
             else:
                 stats['aux_disagreements'] += 1
         shrink_deadline = time.time() + (90 if tier == 'quick' else 240)
-        for f in [x for x in findings if x.kind == 'violation'][:8]:
+        # findings already recognised as listed ones do not use up the slots for minimisation and reporting
+        viol = [x for x in findings if x.kind == 'violation']
+        listed = [x for x in viol if known_match(prop, x, known)]
+        fresh = [x for x in viol if not known_match(prop, x, known)]
+        for f in listed[:4] + fresh[:8]:
             def still(lines, f=f):
                 r = run_scenarios([lines])[0]
                 return any(x.kind == 'violation' and sig_of(x) == sig_of(f) for x in judge(r, pdef))
-            if f.scen.get('no_rerun') or any('pause:' in l for l in f.scen['script']):
+            if known_match(prop, f, known):
+                f2 = f            # already recognised as a listed finding: no need to minimise it again
+            elif f.scen.get('no_rerun') or any('pause:' in l for l in f.scen['script']):
                 # a SIGKILL run (the directory the child left behind is unique), or a scenario with stalled file
                 # operations: a candidate that lost its `release` line would wait out every time-out
                 f2 = f
